@@ -106,12 +106,14 @@ theorem keeps_prepareStream (w : World) (s : BState) (n : Name) (objsDks : List 
   unfold prepareStream
   simp only
   split
+  · exact KeepsBundle.refl s
   · split
-    · exact ⟨rfl, rfl, rfl, rfl⟩
+    · split
+      · exact ⟨rfl, rfl, rfl, rfl⟩
+      · refine KeepsBundle.trans _ _ _ ?_ (keeps_prepareStream_finish w n objsDks _ _ _ _ _)
+        exact ⟨rfl, rfl, rfl, rfl⟩
     · refine KeepsBundle.trans _ _ _ ?_ (keeps_prepareStream_finish w n objsDks _ _ _ _ _)
       exact ⟨rfl, rfl, rfl, rfl⟩
-  · refine KeepsBundle.trans _ _ _ ?_ (keeps_prepareStream_finish w n objsDks _ _ _ _ _)
-    exact ⟨rfl, rfl, rfl, rfl⟩
 
 theorem keeps_dropMonitors (s : BState) : KeepsBundle s (dropMonitors s).st := ⟨rfl, rfl, rfl, rfl⟩
 
@@ -148,18 +150,24 @@ theorem keeps_monitor (w : World) (s : BState) (o : Obj) (n : Name) : KeepsBundl
         · exact KeepsBundle.refl s''
         · exact ⟨rfl, rfl, rfl, rfl⟩
 
+theorem keeps_monitorCompose (s : BState) (m : MonRec) (rd : Reading) :
+    KeepsBundle s (monitorCompose s m rd).st := by
+  unfold monitorCompose
+  split
+  · split
+    · exact KeepsBundle.refl s
+    · exact keeps_composeEvent ..
+  · exact keeps_composeEvent ..
+
 theorem keeps_monitorUpdate (s : BState) (o : Obj) (rd : Reading) : KeepsBundle s (monitorUpdate s o rd).st := by
   unfold monitorUpdate
   split
   · exact KeepsBundle.refl s
   · split
-    · exact KeepsBundle.refl s
-    · simp only
-      split
-      · exact keeps_composeEvent ..
-      · split
-        · exact KeepsBundle.trans _ _ _ (keeps_composeEvent ..) (keeps_commit ..)
-        · exact keeps_composeEvent ..
+    · exact keeps_monitorCompose ..
+    · split
+      · exact KeepsBundle.trans _ _ _ (keeps_monitorCompose s _ rd) (keeps_commit ..)
+      · exact keeps_monitorCompose ..
 
 theorem keeps_unmonitor (s : BState) (o : Obj) : KeepsBundle s (unmonitor s o).st := by
   unfold unmonitor
@@ -183,22 +191,25 @@ theorem keeps_recordInterruption (s : BState) (c : String) : KeepsBundle s (reco
       · exact KeepsBundle.trans _ _ _ (keeps_composeEvent ..) (keeps_commit ..)
       · exact keeps_composeEvent ..
 
+theorem keeps_reprepareAll (w : World) (s : BState) (o : Obj) : KeepsBundle s (reprepareAll w s o).st := by
+  unfold reprepareAll
+  apply keeps_foldl
+  · exact KeepsBundle.refl s
+  · intro r nd h
+    refine keeps_andThen s r _ h ?_
+    intro s''
+    split
+    · exact KeepsBundle.refl s''
+    · split
+      · refine KeepsBundle.trans _ _ _ ?_ (keeps_prepareStream w _ nd.1 _)
+        exact ⟨rfl, rfl, rfl, rfl⟩
+      · exact KeepsBundle.refl s''
+
 theorem keeps_configure (w : World) (s : BState) (o : Obj) : KeepsBundle s (configure w s o).st := by
   unfold configure
   apply keeps_andThen
   · exact keeps_cacheReadConfig w s o
-  · intro s'
-    apply keeps_foldl
-    · exact KeepsBundle.refl s'
-    · intro r nd h
-      refine keeps_andThen s' r _ h ?_
-      intro s''
-      split
-      · exact KeepsBundle.refl s''
-      · split
-        · refine KeepsBundle.trans _ _ _ ?_ (keeps_prepareStream w _ nd.1 _)
-          exact ⟨rfl, rfl, rfl, rfl⟩
-        · exact KeepsBundle.refl s''
+  · intro s'; exact keeps_reprepareAll w s' o
 
 theorem keeps_declareStream (w : World) (s : BState) (n : Name) (objs : List Obj) (c : Bool) :
     KeepsBundle s (declareStream w s n objs c).st := by
